@@ -12,6 +12,7 @@ Ints == { I(n) : n \in 0..(IF Big THEN 6 ELSE 3) }
 Strs == { S(<<>>), S(<<97>>), S(<<98>>), S(<<97, 98>>), S(<<98, 97>>), S(<<65>>) } \cup (IF Big THEN { S(<<97, 97>>), S(<<66>>), S(<<233>>), S(<<97, 32>>), S(<<32, 97>>), S(<<128049>>) } ELSE {})
 StrLists == { List(<<>>), List(<<S(<<97>>)>>), List(<<S(<<97>>), S(<<98>>)>>), List(<<S(<<98>>), S(<<98>>)>>), List(<<S(<<99>>)>>) }
             \cup (IF Big THEN { List(<<S(<<98>>), S(<<97>>)>>), List(<<S(<<97>>), S(<<97>>), S(<<98>>)>>), List(<<S(<<>>)>>), List(<<S(<<65>>), S(<<97>>)>>) } ELSE {})
+IntLists == { List(<<>>), List(<<I(1)>>), List(<<I(1), I(2)>>), List(<<I(3), I(3)>>), List(<<I(0), I(22)>>) }
 GlobPats == { S(<<42>>), S(<<97, 42>>), S(<<63>>), S(<<97>>), S(<<42, 97>>), S(<<91, 97, 93>>) }
             \cup (IF Big THEN { S(<<63, 63>>), S(<<97, 63>>), S(<<91, 33, 97, 93>>), S(<<91, 97, 98, 93, 42>>), S(<<42, 98, 42>>), S(<<>>), S(<<91>>) } ELSE {})
 Now == Join(DaysFromCivil(2021, 6, 1), 0, 0)
@@ -23,6 +24,10 @@ OpsCases ==
   \cup { Mk4(o, "none", r, v) : o \in EqOps \cup Ordering, r \in Strs, v \in Strs }
   \cup { Mk4(o, "none", r, v) : o \in {"in", "ni", "not-in"}, r \in Strs, v \in StrLists }
   \cup { Mk4("contains", "none", r, v) : r \in StrLists, v \in Strs }
+  \* lists of numbers (ports, counts) are lists of numbers, not of their spellings
+  \cup { Mk4(o, "none", r, v) : o \in {"in", "ni", "not-in"}, r \in Ints, v \in IntLists }
+  \cup { Mk4("contains", "none", r, v) : r \in IntLists, v \in Ints }
+  \cup { Mk4(o, "none", r, v) : o \in {"intersect", "difference"}, r \in IntLists, v \in IntLists }
   \cup { Mk4("glob", "none", r, v) : r \in Strs, v \in GlobPats }
   \cup { Mk4(o, "none", r, v) : o \in {"intersect", "difference"}, r \in StrLists, v \in StrLists }
   \cup { Mk4(o, "size", r, v) : o \in EqOps \cup Ordering, r \in StrLists, v \in Ints }
